@@ -39,6 +39,7 @@ F_MEAN, F_MN, F_CONF, F_ENT, F_MODE, F_MODE_TODAY = 1901, 1902, 1903, 1904, 1905
 F_CLOSE, F_BETWEEN, F_VSPLIT, F_DISTR, F_CONFR, F_DECOMP, F_OKMODE = 1907, 1908, 1909, 1910, 1911, 1912, 1913
 RTOL = Fraction(1, 10 ** 9)
 NAN = "nan"
+SKIP = "undefined"  # a cell whose unmasked members all have weight 0: outside the property (numpy.ma answers masked, or NaN for 0-d)
 
 
 # ----------------------------------------------------------------------------------------------- exact numbers
@@ -175,6 +176,27 @@ def remaining_weight(case, c):
     return sum((w[i] for i in range(case["n"]) if not masked_at(case, i, c)), Fraction(0))
 
 
+def undefined_cells(case):
+    out = []
+    for c in range(ncells(case["shape"])):
+        some = any(not masked_at(case, i, c) for i in range(case["n"]))
+        out.append(some and remaining_weight(case, c) == 0)
+    return out
+
+
+def mark_undefined(case, stats, per_cell=1, wide=()):
+    """Replace the outputs of undefined cells by SKIP (stats in `wide` have per_cell entries per cell)."""
+    und = undefined_cells(case)
+    if not any(und):
+        return stats
+    for k, v in stats.items():
+        if not isinstance(v, list):
+            continue
+        w = per_cell if k in wide else 1
+        stats[k] = [SKIP if und[j // w] else x for j, x in enumerate(v)]
+    return stats
+
+
 def enc_weights(case):
     ws = weights_of(case)
     if ws is None:
@@ -194,6 +216,8 @@ class Fail(Exception):
 def compare(name, impl, mod, tols, exact, kind="corr"):
     """impl / mod: lists of Fraction | None | NAN; tols: per-cell tolerance; exact: per-cell bool."""
     for c, (a, b) in enumerate(zip(impl, mod)):
+        if a == SKIP or b == SKIP:
+            continue
         if a is None or b is None:
             if (a is None) != (b is None):
                 raise Fail(kind, name + ":mask", dict(cell=c, impl=str(a), model=str(b)))
@@ -211,6 +235,8 @@ def close_cells(name, a_cells, b_cells, tols, m):
     """Metamorphic equality decided by the extracted ok_close."""
     items, idx = [], []
     for c, (a, b) in enumerate(zip(a_cells, b_cells)):
+        if a == SKIP or b == SKIP:
+            continue
         if a is None or b is None:
             if (a is None) != (b is None):
                 raise Fail("oracle", name + ":mask", dict(cell=c, a=str(a), b=str(b)))
@@ -317,6 +343,8 @@ def base_result(case, extra_desc=()):
     ws = weights_of(case)
     k = wkind_of(ws)
     nt = case["n"] >= 2 and (case["mask"] is not None or k.split("+")[0] in ("normalised", "unnormalised") or "zeros" in k)
+    nex = sum(exact_cells(case)) if case["agg"] != "malformed" else 0
+    extra_desc = list(extra_desc) + ["exact_cells=%s" % ("0" if nex == 0 else "some")]
     return dict(ok=True, kind="oracle", clause="", nontrivial=nt,
                 sig=dict(agg=case["agg"], masked=case["mask"] is not None),
                 desc=["n=%d" % case["n"], "w=" + k, "masked=%s" % (case["mask"] is not None), "dims=%d" % len(case["shape"]),
@@ -373,7 +401,7 @@ def impl_mean(case, junk=False):
         raise Fail("oracle", "mean:loc_differs_between_options")
     if any(isinstance(s, Fraction) and s < 0 for s in scale):
         raise Fail("oracle", "mean:negative_scale")
-    return dict(loc=loc, var=sq(scale))
+    return mark_undefined(case, dict(loc=loc, var=sq(scale)))
 
 
 def scalar_cells(case, keys=("vals",)):
@@ -410,7 +438,8 @@ def magnitudes(case, f):
 def exact_cells(case):
     if case.get("num") != "dyadic":
         return [False] * ncells(case["shape"])
-    return [is_pow2(remaining_weight(case, c)) for c in range(ncells(case["shape"]))]
+    tot = sum(member_weights(case), Fraction(0))  # also a power of two: exact even if the weights are normalised first
+    return [is_pow2(tot) and is_pow2(remaining_weight(case, c)) for c in range(ncells(case["shape"]))]
 
 
 def check_mean_body(case, res):
@@ -504,7 +533,7 @@ def impl_mn(case, junk=False):
     for s in sc:
         if any(isinstance(x, Fraction) and x < 0 for x in s):
             raise Fail("oracle", "mn:negative_scale")
-    return dict(loc=loc, total=sq(sc[0]), ale=sq(sc[1]), epi=sq(sc[2]))
+    return mark_undefined(case, dict(loc=loc, total=sq(sc[0]), ale=sq(sc[1]), epi=sq(sc[2])))
 
 
 def mn_model(case, m):
@@ -562,7 +591,7 @@ def check_mn_body(case, res):
         # --- the property clause: total variance = aleatoric + epistemic, decided by ok_variance_split ---
         by_tol = {}
         for c in range(n):
-            if imp["total"][c] is None or imp["epi"][c] is None or imp["ale"][c] is None:
+            if not all(isinstance(imp[k][c], Fraction) for k in ("total", "epi", "ale")):
                 continue
             by_tol.setdefault(3 * tol2[c], []).append((c, imp["total"][c], imp["ale"][c], imp["epi"][c]))
         for t, lst in by_tol.items():
@@ -615,7 +644,7 @@ def impl_cat(case, junk=False):
     if any(l != locs[0] for l in locs[1:]):
         raise Fail("oracle", "cat:loc_differs_between_options")
     out["loc"] = locs[0]
-    return out
+    return mark_undefined(case, out, K, ("loc",))
 
 
 def row_cells(case):
@@ -647,7 +676,7 @@ def check_cat_body(case, res):
                 raise Fail("oracle", "cat:%s:nan" % k, dict(cell=c))
     # --- property clauses on the implementation's outputs (when the rows of every member are distributions) ---
     if all(row_is_distribution(case["vals"][i][c]) for i in range(case["n"]) for c in range(n)):
-        live = [c for c in range(n) if all(imp[k][c] is not None for k in stats) and all(x is not None for x in imp["loc"][c * K:(c + 1) * K])]
+        live = [c for c in range(n) if all(isinstance(imp[k][c], Fraction) for k in stats) and all(isinstance(x, Fraction) for x in imp["loc"][c * K:(c + 1) * K])]
         t2 = qp(RTOL * 2)
         oks = m.call(F_DISTR, [t2, K, [[qp(x) for x in imp["loc"][c * K:(c + 1) * K]] for c in live]])
         for ok, c in zip(oks, live):
@@ -724,7 +753,7 @@ def impl_mode(case, junk=False):
     loc, loc1 = cells_of(r0, n), cells_of(r1["loc"], n)
     if loc != loc1:
         raise Fail("oracle", "mode:loc_differs_between_options")
-    return dict(mode=loc, unc=cells_of(r1["uncertainty"], n))
+    return mark_undefined(case, dict(mode=loc, unc=cells_of(r1["uncertainty"], n)))
 
 
 def mode_variant(case, m, norm):
@@ -745,6 +774,8 @@ def mode_variant(case, m, norm):
 def agrees(imp, var, tol):
     for c, v in enumerate(var):
         a, b = imp["unc"][c], imp["mode"][c]
+        if a == SKIP:
+            continue
         if v is None or a is None:
             if (v is None) != (a is None):
                 return False
@@ -791,8 +822,10 @@ def check_mode_body(case, res):
 
     try:
         # --- the property clause, decided by ok_mode on the implementation's outputs ---
-        live = [c for c in range(n) if mod[c] is not None and imp["unc"][c] is not None and imp["mode"][c] is not None]
+        live = [c for c in range(n) if mod[c] is not None and isinstance(imp["unc"][c], Fraction) and isinstance(imp["mode"][c], Fraction)]
         for c in range(n):
+            if imp["unc"][c] == SKIP:
+                continue
             if (mod[c] is None) != (imp["unc"][c] is None) or (mod[c] is None) != (imp["mode"][c] is None):
                 raise Fail("oracle", "mode:mask", dict(row=c, impl=str(imp["unc"][c]), model=str(mod[c])))
             if imp["unc"][c] == NAN:
@@ -821,8 +854,8 @@ check_mode = guarded(check_mode_body)
 
 # ----------------------------------------------------------------------------------------------- malformed inputs
 def check_malformed(case):
-    """All-zero weights -> ZeroDivisionError (np.average) for plain arrays / a masked cell for masked arrays;
-    wrong number of weights -> ValueError.  Recorded classes; outside the property's quantifier."""
+    """All-zero weights -> ZeroDivisionError (np.average), or at least no finite answer; wrong number of weights -> ValueError.
+    Recorded classes; outside the property's quantifier."""
     from deephyper.ensemble.aggregator import MeanAggregator, MixedCategoricalAggregator, MixedNormalAggregator
 
     res = dict(ok=True, kind="oracle", clause="", nontrivial=True, sig=dict(agg=case["agg"], malformed=case["what"]), desc=["what=" + case["what"], "agg=" + case["agg"]])
@@ -834,15 +867,21 @@ def check_malformed(case):
         agg, y = MixedNormalAggregator(), [dict(loc=v, scale=np.abs(v)) for v in vals]
     else:
         agg, y = MixedCategoricalAggregator(), [np.stack([v * 0 + 0.5, v * 0 + 0.5], axis=-1) for v in vals]
-    ws = [0.0] * n if case["what"] == "zero_weights" else [1.0] * (n + 1)
-    want = ZeroDivisionError if case["what"] == "zero_weights" else ValueError
+    zero = case["what"] == "zero_weights"
+    ws = [0.0] * n if zero else [1.0] * (n + 1)
     try:
-        agg.aggregate(y, weights=ws)
-    except want:
+        with np.errstate(all="ignore"):
+            r = agg.aggregate(y, weights=ws)
+    except (ZeroDivisionError if zero else ValueError):
         return res
     except Exception as e:
         return dict(res, ok=False, kind="corr", clause="malformed:" + type(e).__name__, detail=str(e))
-    return dict(res, ok=False, kind="corr", clause="malformed:no_error", detail="no exception for " + case["what"])
+    if zero:
+        # no exception: then no finite answer either (all-zero weights have no mixture)
+        vals = [r] if not isinstance(r, dict) else list(r.values())
+        if not any(np.isfinite(np.asarray(np.ma.filled(v, np.nan), dtype=float)).any() for v in vals):
+            return res
+    return dict(res, ok=False, kind="corr", clause="malformed:no_error", detail="a finite answer and no exception for " + case["what"])
 
 
 # ----------------------------------------------------------------------------------------------- generators
